@@ -116,6 +116,24 @@ def h_filters(E, an, aedges, bn, bedges, shift, dom="noh"):
     e_el.isomorphic(A, B)
     after2 = bool(e_full.isomorphic(A, B))
     E.check(after2 != v, "verdict-depends-on-earlier-query-with-other-attributes", dict(info, fresh=v, after=after2))
+    # the same with engines that differ in their *edge* attribute selection
+    ne_plain = GME(node_attrs=["element"], edge_attrs=[], wl1_filter=False, max_mappings=None)
+    v_ne = bool(ne_plain.isomorphic(A, B))
+    m_ne = key(ne_plain.get_mappings(A, B))
+    for first in ("edge", "noedge"):
+        GME._wl_cache.clear()
+        e_edge = GME(node_attrs=["element"], edge_attrs=EA, wl1_filter=True, max_mappings=None)
+        e_noedge = GME(node_attrs=["element"], edge_attrs=[], wl1_filter=True, max_mappings=None)
+        if first == "edge":
+            e_edge.isomorphic(A, B)
+            got, gm_ = bool(e_noedge.isomorphic(A, B)), key(e_noedge.get_mappings(A, B))
+            E.check(got != v_ne or gm_ != m_ne, "verdict-depends-on-earlier-query-with-other-attributes",
+                    dict(info, engines="edge-attrs first", fresh=v_ne, after=got))
+        else:
+            e_noedge.isomorphic(A, B)
+            got = bool(e_edge.isomorphic(A, B))
+            E.check(got != v_el, "verdict-depends-on-earlier-query-with-other-attributes",
+                    dict(info, engines="no-edge-attrs first", fresh=v_el, after=got))
     GME._wl_cache.clear()
     E.note(nontrivial=v or v_el)
     E.observe((v, v_el, key(m)))
